@@ -55,6 +55,9 @@ def bootstrap() -> None:
     logging.disable(logging.CRITICAL)
     warnings.simplefilter("ignore")
     ensure_deps()
+    import vclock
+
+    vclock.install()   # before puresnmp binds `from time import time`
     import puresnmp  # noqa
 
     where = os.path.realpath(puresnmp.__file__)
